@@ -374,17 +374,52 @@ func concurrent(rep *core.Report, args *core.Args, rounds, opsPer int) {
 		wg.Wait()
 		emit(event{Ev: "reset"})
 	}
-	accepted, res := validate(log)
-	rep.AddTLC("Trace_RWMutex", res)
+	// validated in batches of at most 15 rounds (one TLC run each, a few in parallel): the search is
+	// linear in the length of a trace, but one JVM walking a hundred thousand events takes minutes
+	var batches [][]event
+	var cur []event
+	nr := 0
+	for _, e := range log {
+		cur = append(cur, e)
+		if e.Ev == "reset" {
+			if nr++; nr%15 == 0 {
+				batches, cur = append(batches, cur), nil
+			}
+		}
+	}
+	if len(cur) > 0 {
+		batches = append(batches, cur)
+	}
+	type verdict struct {
+		ok  bool
+		res *core.TLCResult
+	}
+	out := make([]verdict, len(batches))
+	sem := make(chan struct{}, 4)
+	var vwg sync.WaitGroup
+	for i := range batches {
+		vwg.Add(1)
+		sem <- struct{}{}
+		go func(i int) {
+			defer vwg.Done()
+			defer func() { <-sem }()
+			out[i].ok, out[i].res = validate(batches[i])
+		}(i)
+	}
+	vwg.Wait()
+	for i, v := range out {
+		rep.AddTLC(fmt.Sprintf("Trace_RWMutex[%d]", i), v.res)
+		if !v.ok {
+			p := saveTrace(batches[i], fmt.Sprintf("c12-rejected-%d", i))
+			rep.Violate("C12.linearizable-posix", "concurrent/linearizability", map[string]any{"tlc": v.res.Describe(), "trace": p}, map[string]any{"trace_file": p})
+		}
+	}
 	rep.Eval(len(log))
 	rep.TracesValidated += int64(rounds)
 	rep.Extra["concurrent_events"] = len(log)
+	rep.Extra["trace_validation_batches"] = len(batches)
 	if len(log) > 12 {
 		rep.Sample(map[string]any{"concurrent_trace_prefix": log[:12]})
-	}
-	if !accepted {
-		p := saveTrace(log, "c12-rejected")
-		rep.Violate("C12.linearizable-posix", "concurrent/linearizability", map[string]any{"tlc": res.Describe(), "trace": p}, map[string]any{"trace_file": p})
 	}
 	// binding self-test: a sequential trace with one result flipped must be rejected
 	w := newWorld()
@@ -440,7 +475,7 @@ func validate(log []event) (bool, *core.TLCResult) {
 	dir := core.Scratch("trace")
 	p := filepath.Join(dir, "trace.ndjson")
 	writeTrace(p, log)
-	res, err := core.RunTLC(core.TLCOpts{Module: "RWMutexTrace", Cfg: "Trace_RWMutex.cfg", Workers: 1, DFS: true, Timeout: 5 * time.Minute,
+	res, err := core.RunTLC(core.TLCOpts{Module: "RWMutexTrace", Cfg: "Trace_RWMutex.cfg", Workers: 1, DFS: true, Timeout: 10 * time.Minute,
 		Env: map[string]string{"TRACE_FILE": p}})
 	if err != nil {
 		core.Infra("tlc trace validation: %v", err)
